@@ -278,3 +278,38 @@ def owners(cr, paths):
                 out.add(q)      # nobody calls it: stands for itself
             work.extend(cs)
     return out
+
+
+def true_leaves(ip, outs, limit=16):
+    """the paths on which a boolean function answers true, as states: a leaf that returns `true`; a leaf that returns a
+    condition c, once per disjunct of c (with that disjunct assumed).  `if a && b { return true } .. false` and
+    `(a && b) || ..` give the same states."""
+    res = []
+    for o in outs:
+        if o.kind != 'ret':
+            continue
+        v = o.value if isinstance(o.value, tuple) else ip.to_term(o.state, o.value)
+        if v == FALSE:
+            continue
+        if v == TRUE:
+            res.append(o.state)
+            continue
+        ds = disjuncts(T.nnf(v))
+        if len(ds) > limit:
+            raise X.Unanalysable('too many disjuncts in a returned condition')
+        for d in ds:
+            s2 = o.state.clone()
+            if s2.assume(d) is False:
+                continue
+            if ip.feasible(o.state, d):
+                res.append(s2)
+    return res
+
+
+def disjuncts(f):
+    """disjuncts of the disjunctive normal form of an nnf formula (conjunctions kept as formulas)"""
+    if isinstance(f, tuple) and f and f[0] == 'or':
+        return disjuncts(f[1]) + disjuncts(f[2])
+    if isinstance(f, tuple) and f and f[0] == 'and':
+        return [T.mk_and(a, b) for a in disjuncts(f[1]) for b in disjuncts(f[2])]
+    return [f]
